@@ -100,6 +100,100 @@
 #define os_atomic_xor_orig(p, v, m) \
 		_os_atomic_c11_op_orig((p), (v), m, xor, ^)
 
+#if DISPATCH_VERIF
+/*
+ * Verification hook (off by default, enabled with -DDISPATCH_VERIF=1):
+ * every os_atomic_* access is bracketed by a call through an optional callback
+ * so that an external harness can inject scheduling delays inside the
+ * library's atomicity windows and observe which atomic sites were reached.
+ * The atomic operation, its operands and its memory order are unchanged.
+ * phase: 0 = before the access, 1 = after; op: 0 load, 1 store, 2 xchg,
+ * 3 cmpxchg, 4 fetch-and-op.
+ */
+#ifdef __cplusplus
+extern "C"
+#else
+extern
+#endif
+__attribute__((__visibility__("default")))
+void (*volatile _dispatch_verif_atomic_hook)(int phase, int op,
+		const volatile void *addr, const char *func, int line);
+#define _dispatch_verif_hook(ph, op, p) ({ \
+		__typeof__(_dispatch_verif_atomic_hook) _dvh = \
+				_dispatch_verif_atomic_hook; \
+		if (__builtin_expect(_dvh != 0, 0)) { \
+			_dvh((ph), (op), (const volatile void *)(p), __func__, __LINE__); \
+		} })
+
+#undef os_atomic_load
+#define os_atomic_load(p, m) ({ \
+		__typeof__(p) _dvp = (p); \
+		_dispatch_verif_hook(0, 0, _dvp); \
+		_os_atomic_basetypeof(_dvp) _dvr = atomic_load_explicit( \
+				_os_atomic_c11_atomic(_dvp), memory_order_##m); \
+		_dispatch_verif_hook(1, 0, _dvp); _dvr; })
+#undef os_atomic_store
+#define os_atomic_store(p, v, m) ({ \
+		__typeof__(p) _dvp = (p); \
+		_os_atomic_basetypeof(_dvp) _dvv = (v); \
+		_dispatch_verif_hook(0, 1, _dvp); \
+		atomic_store_explicit(_os_atomic_c11_atomic(_dvp), _dvv, \
+				memory_order_##m); \
+		_dispatch_verif_hook(1, 1, _dvp); })
+#undef os_atomic_xchg
+#define os_atomic_xchg(p, v, m) ({ \
+		__typeof__(p) _dvp = (p); \
+		_os_atomic_basetypeof(_dvp) _dvv = (v); \
+		_dispatch_verif_hook(0, 2, _dvp); \
+		_os_atomic_basetypeof(_dvp) _dvr = atomic_exchange_explicit( \
+				_os_atomic_c11_atomic(_dvp), _dvv, memory_order_##m); \
+		_dispatch_verif_hook(1, 2, _dvp); _dvr; })
+#undef os_atomic_cmpxchg
+#define os_atomic_cmpxchg(p, e, v, m) ({ \
+		__typeof__(p) _dvp = (p); \
+		_os_atomic_basetypeof(_dvp) _r = (e), _dvv = (v); \
+		_dispatch_verif_hook(0, 3, _dvp); \
+		_Bool _dvb = atomic_compare_exchange_strong_explicit( \
+				_os_atomic_c11_atomic(_dvp), &_r, _dvv, memory_order_##m, \
+				memory_order_relaxed); \
+		_dispatch_verif_hook(1, 3, _dvp); _dvb; })
+#undef os_atomic_cmpxchgv
+#define os_atomic_cmpxchgv(p, e, v, g, m) ({ \
+		__typeof__(p) _dvp = (p); \
+		_os_atomic_basetypeof(_dvp) _r = (e), _dvv = (v); \
+		_dispatch_verif_hook(0, 3, _dvp); \
+		_Bool _b = atomic_compare_exchange_strong_explicit( \
+				_os_atomic_c11_atomic(_dvp), &_r, _dvv, memory_order_##m, \
+				memory_order_relaxed); *(g) = _r; \
+		_dispatch_verif_hook(1, 3, _dvp); _b; })
+#undef os_atomic_cmpxchgvw
+#define os_atomic_cmpxchgvw(p, e, v, g, m) ({ \
+		__typeof__(p) _dvp = (p); \
+		_os_atomic_basetypeof(_dvp) _r = (e), _dvv = (v); \
+		_dispatch_verif_hook(0, 3, _dvp); \
+		_Bool _b = atomic_compare_exchange_weak_explicit( \
+				_os_atomic_c11_atomic(_dvp), &_r, _dvv, memory_order_##m, \
+				memory_order_relaxed); *(g) = _r; \
+		_dispatch_verif_hook(1, 3, _dvp); _b; })
+#undef _os_atomic_c11_op
+#define _os_atomic_c11_op(p, v, m, o, op) ({ \
+		__typeof__(p) _dvp = (p); \
+		_os_atomic_basetypeof(_dvp) _v = (v); \
+		_dispatch_verif_hook(0, 4, _dvp); \
+		_os_atomic_basetypeof(_dvp) _r = atomic_fetch_##o##_explicit( \
+				_os_atomic_c11_atomic(_dvp), _v, memory_order_##m); \
+		_dispatch_verif_hook(1, 4, _dvp); \
+		(__typeof__(_r))(_r op _v); })
+#undef _os_atomic_c11_op_orig
+#define _os_atomic_c11_op_orig(p, v, m, o, op) ({ \
+		__typeof__(p) _dvp = (p); \
+		_os_atomic_basetypeof(_dvp) _v = (v); \
+		_dispatch_verif_hook(0, 4, _dvp); \
+		_os_atomic_basetypeof(_dvp) _r = atomic_fetch_##o##_explicit( \
+				_os_atomic_c11_atomic(_dvp), _v, memory_order_##m); \
+		_dispatch_verif_hook(1, 4, _dvp); _r; })
+#endif // DISPATCH_VERIF
+
 #define os_atomic_force_dependency_on(p, e) (p)
 #define os_atomic_load_with_dependency_on(p, e) \
 		os_atomic_load(os_atomic_force_dependency_on(p, e), relaxed)
